@@ -129,6 +129,11 @@ func validateFileNodeParameters(path string, digest Digest) error {
 	if path != normalizedPath {
 		return fmt.Errorf("path %q was not equal to normalized path %q", path, normalizedPath)
 	}
+	if strings.ContainsRune(path, '\n') {
+		// Manifests are line-based: a path containing a newline cannot be represented,
+		// and could forge additional manifest lines.
+		return fmt.Errorf("path %q contains a newline", path)
+	}
 	if digest == nil {
 		return errors.New("no digest specified")
 	}
